@@ -268,6 +268,54 @@ pub fn spaces(tier: Tier) -> Vec<Space<'static>> {
         judge(format!("{{\"{}\":1,\"{}\":{},\"{}\":\"x\"}}", ks[a], ks[b], vs[v], ks[c]).as_bytes(), acc);
         judge(format!("[{{\"{}\":{{\"{}\":1,\"{}\":2}}}}]", ks[a], ks[b], ks[c]).as_bytes(), acc);
     }));
+    // size sweep: objects of every member count 0..=300 written in descending / interleaved /
+    // permuted key order, every key written twice with different values (last must win)
+    sp.push(Space::new("size sweep: N-member objects with duplicate keys, 3 orders", 301 * 3, |i, acc| {
+        let n = (i / 3) as usize;
+        let order: Vec<usize> = match i % 3 {
+            0 => (0..n).rev().collect(),
+            1 => (0..n).collect(),
+            _ => (0..n).map(|k| (k * 7919 + 13) % n.max(1)).collect(),
+        };
+        let mut t = String::from("{");
+        let mut first = true;
+        // every key once with value 0 ...
+        for k in &order {
+            if !first {
+                t.push(',');
+            }
+            first = false;
+            t.push_str(&format!("\"k{}\":0", k));
+        }
+        // ... then again (other order) with the value that must win
+        for k in order.iter().rev() {
+            if !first {
+                t.push(',');
+            }
+            first = false;
+            t.push_str(&format!("\"k{}\":{}", k, k + 1));
+        }
+        t.push('}');
+        judge(t.as_bytes(), acc);
+        let arr = format!("[{}]", (0..n).map(|k| k.to_string()).collect::<Vec<_>>().join(","));
+        judge(arr.as_bytes(), acc);
+    }));
+    // floats: the shortest round-trip spelling of every pattern of the float pattern sets must
+    // parse back to the same bits (decimal fast paths must be correctly rounded)
+    sp.push(Space::new("shortest-float-spellings", 1 << 16, |i, acc| {
+        for f in [f64::from_bits(i << 48), f64::from_bits((i << 48) | 0x0000_FFFF_FFFF_FFFF), f64::from_bits((i << 48) | 0x0000_5555_5555_5555)] {
+            if !f.is_finite() {
+                continue;
+            }
+            judge(format!("{:?}", f).as_bytes(), acc);
+            // the same value written without exponent where that is short enough, and with extra digits
+            let plain = format!("{}", f);
+            if plain.len() <= 40 {
+                judge(plain.as_bytes(), acc);
+            }
+            judge(format!("{:.17e}", f).as_bytes(), acc);
+        }
+    }));
     // (b) every token string up to the bound
     let l = if tier.thorough() { 6 } else { 5 };
     let nt = TOKENS.len() as u64;
